@@ -83,6 +83,15 @@ Theorem c12_caveats : forall cfg hit s rel obj,
 Proof. exact caveats_count_only_when_true. Qed.
 Print Assumptions c12_caveats.
 
+(* the oracle is what the code computes from its clock readings (clock 0 = start, clock (S k) = the
+   k-th read in the loop): no reading past start + deadline_ms * 10^6 ns means no deadline hit, so
+   c12_exact applies to every such clock *)
+Theorem c12_clock : forall ms clock,
+  (forall k, (clock (S k) <= clock 0%nat + ms * 1000000)%Z) ->
+  forall k, hit_of_clock ms clock k = false.
+Proof. exact no_deadline_hit. Qed.
+Print Assumptions c12_clock.
+
 (* the executable specification used by the harness on the implementation's answers *)
 Theorem c12_within_b_spec : forall cfg root,
   within_b cfg root = true <-> derivable_within cfg (c_max_depth cfg) root.
